@@ -168,7 +168,11 @@ class Type1FontHeaderParser(PSStackParser[int]):
 
     def do_keyword(self, pos: int, token: PSKeyword) -> None:
         if token is self.KEYWORD_PUT:
-            ((_, key), (_, value)) = self.pop(2)
+            objs = self.pop(2)
+            if len(objs) != 2:
+                # "put" without a key and a value before it
+                return
+            ((_, key), (_, value)) = objs
             if isinstance(key, int) and isinstance(value, PSLiteral):
                 self.add_results((key, literal_name(value)))
 
